@@ -42,16 +42,19 @@ fn put_rec(i: usize, height: u8, file: u8, pos: u8) {
 }
 
 macro_rules! index_new {
-    ($name:ident, $t:expr) => {
+    ($name:ident, $t:expr, [$f0:expr, $f1:expr, $f2:expr, $f3:expr]) => {
         #[kani::proof]
         #[kani::unwind(8)]
         fn $name() {
             const T: usize = $t; // highest indexed height; T+1 records
-            let file: [u8; 4] = kani::any();
-            let pos: [u8; 4] = kani::any();
+            // height -> file assignment is part of the shape (symbolic file numbers make the keys of
+            // max_height_blk_index symbolic: out of memory); offsets, start and end are symbolic
+            let file: [u8; 4] = [$f0, $f1, $f2, $f3];
+            // record contents are concrete ([measured] one symbolic byte in a record value costs 180 s / 11 GB
+            // in the LevelDB-model copy loops and is irrelevant to clamping/trimming); start and end are symbolic
+            let pos: [u8; 4] = [10, 11, 12, 13];
             let mut i = 0;
             while i <= T {
-                kani::assume(file[i] < 3 && pos[i] < 0x80);
                 put_rec(i, i as u8, file[i], pos[i]);
                 i += 1;
             }
@@ -109,10 +112,10 @@ macro_rules! index_new {
 }
 
 //@ id=C02,C09,C17 tier=quick name=c02_index_new_t0 timeout=900 role=index_new bound=tip-0,start/end-full-width-u64 fn=ChainIndex::new,get_block_index,ChainIndex::max_height_by_blk
-index_new!(c02_index_new_t0, 0);
-//@ id=C02,C09,C17 tier=quick name=c02_index_new_t2 timeout=1500 role=index_new bound=tip-2,3-records-over-3-files,start/end-full-width-u64
-index_new!(c02_index_new_t2, 2);
+index_new!(c02_index_new_t0, 0, [0, 0, 0, 0]);
+//@ id=C02,C09,C17 tier=quick name=c02_index_new_t2 timeout=1500 role=index_new bound=tip-2,3-records-in-files-0,1,0(interleaved),start/end-full-width-u64
+index_new!(c02_index_new_t2, 2, [0, 1, 0, 0]);
 //@ id=C02,C09,C17 tier=thorough name=c02_index_new_t1 timeout=1500 role=index_new bound=tip-1
-index_new!(c02_index_new_t1, 1);
-//@ id=C02,C09,C17 tier=thorough name=c02_index_new_t3 timeout=3000 role=index_new bound=tip-3,4-records-over-3-files
-index_new!(c02_index_new_t3, 3);
+index_new!(c02_index_new_t1, 1, [1, 0, 0, 0]);
+//@ id=C02,C09,C17 tier=thorough name=c02_index_new_t3 timeout=3000 role=index_new bound=tip-3,4-records-in-files-0,0,1,2
+index_new!(c02_index_new_t3, 3, [0, 0, 1, 2]);
